@@ -936,6 +936,12 @@ func main() {
 		"Oracle (S): the same statements as one compiled Go program per batch (package-level declarations, statements in order in a function, go 1.18 module), %T and %v of every read equal; "+
 		"a redefinition is rendered as a fresh Go variable - also when pointers or functions still refer to the previous variable and the type changes (they keep the previous variable, commit C14-4); "+
 		"only after a redefinition with the SAME type of a variable that a pointer or function refers to (slot reused: REPL-only semantics, known finding C14-K1, replayed by corpus/C14/90_*) the rest of that history is checked against the model only. "+
+		"matrix histories (matrix.go; generated code is specialised per kind, per storage class and per scope distance): for EVERY int-like kind K of {bool,int,int8..int64,uint,uint8..uint64,uintptr,float32,float64,complex64,complex128} "+
+		"and every depth 0..3 (0..5 thorough) one history that declares g of kind K, takes exactly ONE address &g from `depth` scopes below the file scope (function bodies, blocks with locals, closures, for/if/switch with :=, randomly nested; "+
+		"as a top-level statement or inside a function returning the pointer), declares int-like globals of random kinds (1..64 names per statement; one per evaluation in 2 random histories, in the thorough tier in one history per kind and depth) until the 1024 slots of Env.Ints "+
+		"are used up and 4..44 more, then *p = v / g / g = v / *p; then the operator sweep: every combination of {+= -= *= /= %= &= |= ^= &^= <<= >>= ++ --} x {constant operand: a plain one AND a special-cased one (0, 1, -1, powers of two, large shift counts); variable operand} x "+
+		"{15 numeric kinds} x {IntBind global declared before the address, boxed global declared after Env.Ints is full} x {statement at depth 0,1,2,3} is dealt out once (3 times thorough) over these histories as `x = v; stmt; x`, all reads compared with compiled Go; "+
+		"the Coq model replays every matrix history up to 6 evaluations after the address-of and every eighth (all, thorough) completely. "+
 		"non-trivial: the history executes >=1 address-of an Ints slot and declares >=5 variables afterwards; distinct by SHA-256 of the sources")
 	wd := vh.NewWatchdog(rep, 10*time.Minute) // generous: go build of the oracle / the first fast.New() take minutes on a loaded machine
 
@@ -981,7 +987,7 @@ func main() {
 		}
 	}
 	// matrix histories (matrix.go): every int-like kind x every depth of the address-of, Env.Ints used up, operator sweep
-	depths, width, rounds, nNarrow := []int{0, 1, 2, 3}, 64, 1, 4
+	depths, width, rounds, nNarrow := []int{0, 1, 2, 3}, 64, 1, 2
 	if a.Thorough() {
 		depths, rounds, nNarrow = []int{0, 1, 2, 3, 4, 5}, 3, 0
 	}
@@ -1067,9 +1073,12 @@ func main() {
 			}
 			fail := func(what string, got, wantv interface{}) {
 				in := map[string]interface{}{"history_tail": srcsUpTo(h, i), "step": i}
-				if h.Head > 0 && i > 40 {
+				if h.Head > 0 && i > h.Head+12 {
+					if t := srcsUpTo(h, i); len(t) > 13 {
+						in["history_tail"] = t[len(t)-13:]
+					}
 					// the declarations and the address-of at the start of a matrix history; the steps between head and tail are
-					// declarations of further int-like globals (inputs.jsonl holds the complete history)
+					// declarations of further int-like globals (inputs.jsonl holds the complete history when it has at most 400 evaluations)
 					in["history_head"] = srcsUpTo(h, h.Head-1)
 					in["matrix"] = h.Matrix
 				}
@@ -1121,10 +1130,17 @@ func main() {
 			in := map[string]interface{}{"core": h.Core, "srcs": srcsUpTo(h, len(h.Steps)-1)}
 			if h.Matrix != "" {
 				// the model replays every matrix history up to a few evaluations after the address-of (IntAddressTaken, classes
-				// and indexes of all names declared so far) and one history in four (all of them in the thorough tier) completely
+				// and indexes of all names declared so far) and one history in eight (all of them in the thorough tier) completely
 				nMatrix++
 				in["matrix"], in["head"] = h.Matrix, srcsUpTo(h, h.Head-1)
-				if n := h.Head + 6; !a.Thorough() && (nMatrix+int(a.Seed))%4 != 0 && n < len(cstm) {
+				if len(h.Steps) <= 400 {
+					all := make([]string, len(h.Steps))
+					for i, s := range h.Steps {
+						all[i] = s.Src
+					}
+					in["srcs"] = all
+				}
+				if n := h.Head + 6; !a.Thorough() && (nMatrix+int(a.Seed))%8 != 0 && n < len(cstm) {
 					cstm, cobs = cstm[:n], cobs[:n]
 					in["model_replays_first_steps"] = n
 				}
